@@ -46,7 +46,7 @@ MANIFEST = {
                   "capacity of mdat.Data where the model says panic (outside every theorem's domain; excluded from the comparison).",
 }
 
-HANDLED = ("O", "H", "D", "G", "B", "M")   # case kinds the model driver recomputes
+HANDLED = ("O", "H", "D", "G", "B", "M", "L")   # case kinds the model driver recomputes
 
 
 def build(ctx):
